@@ -50,6 +50,20 @@ CHECKS = {
         "that turns runaway allocations into MemoryError.",
         "DESIGN.md 5/C05",
     ),
+    "C10": (
+        "exploration",
+        "model-based stateful testing (Hypothesis RuleBasedStateMachine) + "
+        "exhaustive enumeration of short operation sequences against a "
+        "reference store model",
+        "Every operation sequence up to length 3 (quick) / 4 (thorough) over "
+        "a small universe and generated histories to length 40 over a larger "
+        "one are applied to the real SQLite store and to a dict model; every "
+        "read (all spellings), existence check, body read, template "
+        "expansion and a scan through a brand-new context must agree.",
+        "Trusts refs/store.py (spelling resolver written from the statement) "
+        "and SQLite; writes use canonical or prefix-less titles only.",
+        "DESIGN.md 5/C10",
+    ),
 }
 
 NOT_YET = "check not built yet in this round (planned in DESIGN.md section 5)"
